@@ -199,6 +199,61 @@ def installed_configs(cls, tier):
                  alpha=alpha)
 
 
+def rule_promoted_to_auto(rep, repo, mod, rule="R13"):
+  """A quantizer built WITHOUT alpha and promoted to the data-dependent
+  scale afterwards - by `_set_trainable_parameter()`, as every layer does
+  with its kernel quantizer, or (quantized_linear, documented modifiable) by
+  assigning `alpha` - scales along the axis it was configured with: forward
+  value and recorded scale are those of the quantizer constructed with that
+  alpha directly."""
+  from ..qir import equal_mod_finite
+  n = 0
+  for cls, attr in (("quantized_bits", "scale"),
+                    ("quantized_linear", "quantization_scale")):
+    unit = "%s::%s.__init__" % (mod.relpath, cls)
+    for axis_kw in (dict(scale_axis=0), dict()):
+      steps = [("_set_trainable_parameter()", "auto_po2", True)]
+      if cls == "quantized_linear":
+        steps += [("q.alpha = 'auto'", "auto", None),
+                  ("q.alpha = 'auto_po2'", "auto_po2", None)]
+      for label, alpha, symmetric in steps:
+        kw = dict(bits=4, integer=0, keep_negative=True, alpha=None,
+                  **axis_kw)
+        cfg = "%s(%s) then %s" % (cls, show_kw(kw), label)
+        try:
+          pe, obj = quant.construct(repo, cls, kw, x_shape=(4, 6))
+          if label.startswith("_set"):
+            pe.call(pe.getattr(obj, "_set_trainable_parameter"), [], {})
+          else:
+            pe.setattr(obj, "alpha", alpha)
+          out = pe.call(obj, [pe.x_input()], {})
+          kw2 = dict(kw, alpha=alpha)
+          if symmetric is not None:
+            kw2["symmetric"] = symmetric
+          ref = quant.build(repo, cls, kw2, x_shape=(4, 6))
+        except (PyRaise, ConfigRejected) as e:
+          rep.extra.setdefault("promotion_skipped", {})[cfg] = str(e)[:100]
+          continue
+        fw = Fwd("infer", syms={"post_training_scale": NF.sym("pts")})
+        s1, s2 = obj.attrs.get(attr), ref.obj.attrs.get(attr)
+        if not isinstance(out, Tensor) or not isinstance(s1, Tensor) or \
+            not isinstance(s2, Tensor):
+          rep.extra.setdefault("promotion_skipped", {})[cfg] = "no scale"
+          continue
+        n += 1
+        rep.unit(unit)
+        f1, f2 = fw(out.term), fw(ref.term)
+        n1, n2 = fw(s1.term), fw(s2.term)
+        rep.check(equal_mod_finite(f1, f2) and equal_mod_finite(n1, n2),
+                  rule, unit, "promoted-quantizer-differs",
+                  "%s: the recorded scale is %s, a quantizer constructed "
+                  "with alpha=%r directly records %s (forward values %s)" % (
+                      cfg, show(n1, 160), alpha, show(n2, 160),
+                      "agree" if equal_mod_finite(f1, f2) else "differ"),
+                  loc=pe.loc_of(out.term), instance=cfg)
+  return n
+
+
 def run(rep, repo, tier):
   mod = repo.module(quant.QMOD)
   rep.trusted.append("semantics table of TF/Keras primitives; tf.while_loop "
@@ -424,6 +479,9 @@ def run(rep, repo, tier):
   if n9 < 12:
     raise AnalysisError("instance-count only %d call-purity configurations"
                         % n9)
+  if rule_promoted_to_auto(rep, repo, mod) < 6:
+    raise AnalysisError("instance-count promoted quantizers: %r" %
+                        rep.extra.get("promotion_skipped"))
   rep.require_instances("R8", 60)
   rep.require_instances("R6", 40)
   rep.require_instances("R1", 100)
